@@ -314,6 +314,12 @@ func (env *SpecEnv) eval(e *Expr) *Value {
 		if _, isPtr := under(t).(*types.Pointer); isPtr {
 			return &Value{K: KPtr, T: t, P: &Pointer{Base: v.IRef, ObjT: under(t).(*types.Pointer).Elem()}}
 		}
+		if v.Boxed != nil && types.Identical(v.Boxed.T, t) {
+			return v.Boxed
+		}
+		if ls := leavesOf(t); len(ls) == 1 && ls[0].Sort.Kind == SRef && isRefLike(t) {
+			return buildValue(t, func(l Leaf) *Term { return v.IRef })
+		}
 		return x.unbox(v.IRef, t)
 	}
 	specFail("cannot evaluate %s (%s)", e, e.Op)
@@ -941,6 +947,19 @@ func (env *SpecEnv) call(e *Expr) *Value {
 			return scalar(tBool, False)
 		}
 		return v
+	case "after":
+		// after(F, expr): expr evaluated in the state right after the most recent call of F
+		n := exprTypeName(args[0])
+		if args[0].Op == "str" {
+			n = args[0].Name
+		}
+		snap, ok := env.cur.snaps[n]
+		if !ok {
+			specFail("after(%s, ...): no call of %s common to every path to this point", n, n)
+		}
+		ne := *env
+		ne.cur = snap
+		return ne.eval(args[1])
 	case "arg":
 		// arg(F, i): the i-th argument of the most recent call of F
 		n := exprTypeName(args[0])
